@@ -42,6 +42,23 @@ Proof.
   destruct (cstep_inv ds c D I) as (D1 & I1). apply IH; assumption.
 Qed.
 
+Lemma crun_le l : forall ds, DbOk (fst ds) -> Inv (fst ds) (snd ds) -> db_le (fst ds) (fst (crun ds l)).
+Proof.
+  unfold crun. induction l as [|c r IH]; intros ds D I; cbn [fold_left]; [apply db_le_refl|].
+  destruct (cstep_inv ds c D I) as (D1 & I1). eapply db_le_trans; [|apply IH; assumption].
+  destruct c as [o|de]; cbn [cstep fst snd]; [apply db_le_refl|].
+  destruct (commit_spec (fst ds) de (snd ds) D I) as (_ & L & _). exact L.
+Qed.
+
+(* whatever history another StateDB over the same database goes through (a copy, the
+   original of a copy, a reopened state): this one keeps its invariant and shows the same *)
+Lemma other_side d s t l : DbOk d -> Inv d s -> Inv d t ->
+  let ds := crun (d, s) l in Inv (fst ds) t /\ state_eq (fst ds) t d t.
+Proof.
+  intros D Is It. cbn zeta. pose proof (crun_le l (d, s) D Is) as L. cbn [fst] in L.
+  split; [apply (inv_le_state d _ t L It)|apply views_le; assumption].
+Qed.
+
 (* reachable from the empty database by calls and commits *)
 Definition reached (l : list cop) : database * statedb := crun (db_empty, genesis) l.
 Lemma reached_ok l : DbOk (fst (reached l)) /\ Inv (fst (reached l)) (snd (reached l)).
